@@ -199,6 +199,10 @@ func TestC09(t *testing.T) {
 			jr.begin("C09", "layout", c)
 			err := checkC09(c)
 			jr.end()
+			if err != nil && strings.HasPrefix(err.Error(), "harness:") {
+				st.Class("skipped_source_not_accepted")
+				return
+			}
 			if err != nil {
 				fail(rt, "C09", "layout", c, "%v", err)
 			}
